@@ -180,10 +180,16 @@ func runC07(c *Ctx) {
 						if name == "convertsToQuantity" {
 							continue // reports convertibility (always a Boolean, cf. C13), not a value derived from the argument
 						}
+						// the receiver the shape table names, and a receiver of every other System type (the argument must be
+						// looked at whatever the receiver is: `5.round({})` is not 5)
+						for _, recv := range []string{shape.recv, "5", "(-7)", "2.5", "'abc'", "true", "@2020-01-01", "@2020-01-01T10:00:00Z", "@T10:00", "4 'mg'"} {
+						if recv == shape.recv && recv == "5" {
+							continue
+						}
 						for _, em := range empties {
 							a2 := append([]string{}, args...)
 							a2[pos] = em
-							src := shape.recv + "." + name + "(" + strings.Join(a2, ", ") + ")"
+							src := recv + "." + name + "(" + strings.Join(a2, ", ") + ")"
 							o := evalSrc(src, copts...)
 							out := outTokens(o)
 							ok := out == "ok:[]" || strings.HasPrefix(out, "err:")
@@ -192,6 +198,7 @@ func runC07(c *Ctx) {
 							}
 							c.Law(ok, "C07/empty-argument-fabricates", "an empty argument where a single value is required yields empty or an error", src, out)
 							c.Count("arg-empty")
+						}
 						}
 					}
 				}
